@@ -6,6 +6,8 @@ Line protocol of the table width / geometry model (`Model/TableWidths.lean`).
   acol  ::= (min max pct constrained truthy)
 
   fixed <W|auto> <collapse> <spacing> (dim…) (fcell…)          → ok W' (cw…) | err:AssertionError
+  fixedclamped …same arguments…                               → true|false (a first-row cell took `max(width, 0)`)
+  finalcols <ltr> (cw…) [fragment index]                       → what a laid-out fragment shows in `column_widths`
   excess (acol…) <excess> (cw…) <start> <stop|none>            → ok (cw…) | err:ZeroDivisionError
   auto <W|auto> tmin tmax spacing ml mr pl pr bl br cb (acol…) → ok W' (cw…) | err:ZeroDivisionError
   autobranch …same arguments…                                  → branch tag (evidence only)
@@ -85,6 +87,19 @@ def handle (cmd : String) (args : List Sx) : Option String :=
     match fixedLayout w (effSpacing collapse sp) cols cells with
     | .error e => pure (errStr e)
     | .ok o => pure ("ok " ++ showRat o.width ++ " " ++ showRats o.cols)
+  | "fixedclamped", [w, collapse, sp, cols, cells] => do
+    let w ← w.len?
+    let collapse ← collapse.bool?
+    let sp ← sp.rat?
+    let cols ← cols.list?.bind (allSome dim?)
+    let cells ← cells.list?.bind (allSome fcell?)
+    match w with
+    | none => pure "false"
+    | some W => pure (toString (fixedClamped W (effSpacing collapse sp) cols cells))
+  | "finalcols", [ltr, cw] => do
+    pure (showRats (finalColumns (← ltr.bool?) (← rats? cw)))
+  | "finalcols", [ltr, cw, _fragment] => do
+    pure (showRats (finalColumns (← ltr.bool?) (← rats? cw)))
   | "excess", [cols, ex, cw, start, stop] => do
     let cols ← cols.list?.bind (allSome acol?)
     let ex ← ex.rat?
